@@ -174,4 +174,41 @@ theorem eof_is_last_reachable (o : WOpts) (s0 s s' : WState) (ops : List Op)
       At s'.out (x + body.length) kTrailerNL :=
   eof_is_last (C02fiob.run_inv ops (C02fiob.init_inv o s0 h0) hr) hobj h hsize
 
+/-! ### distinct offsets as an invariant of every reachable state, both forms -/
+
+theorem objHeader_length_pos (n g : Nat) : 0 < (objHeader n g).length := by
+  simp [objHeader, kObj]; omega
+
+/-- **offsets_distinct_inv.**  In every state satisfying the writer invariant — at any moment of
+a program, with or without an open stream, table form or stream form — two in-use entries (not in
+an object stream) with the same offset belong to the same object number. -/
+theorem offsets_distinct_inv {s : WState} (hi : Inv s)
+    (n n' : Nat) (e e' : XEntry) (hn : s.xref.get n = some e) (hn' : s.xref.get n' = some e')
+    (hs : e.inStream = 0) (hs' : e'.inStream = 0) (hp : 0 ≤ e.pos) (heq : e.pos = e'.pos) : n = n' := by
+  have hp' : 0 ≤ e'.pos := by omega
+  rcases hi.entries n e hn hs hp with a1 | ⟨st, h1, _, h3, _, h5⟩
+  · rcases hi.entries n' e' hn' hs' hp' with a2 | ⟨st', _, _, _, _, k5⟩
+    · rw [← heq] at a2
+      exact header_at_inj a1 a2
+    · -- `n` has its header inside the file, `n'` is the pending stream at the end of the file
+      have := a1.end_le
+      have hl := objHeader_length_pos n e.gen
+      have := hi.pos_eq
+      omega
+  · rcases hi.entries n' e' hn' hs' hp' with a2 | ⟨st', k1, _, k3, _, _⟩
+    · have := a2.end_le
+      have hl := objHeader_length_pos n' e'.gen
+      have := hi.pos_eq
+      omega
+    · rw [h1] at k1
+      cases k1
+      omega
+
+/-- for every program run from `initState` -/
+theorem offsets_distinct_reachable (o : WOpts) (s0 s : WState) (ops : List Op)
+    (h0 : initState o = some s0) (hr : run s0 ops 0 = .ok s)
+    (n n' : Nat) (e e' : XEntry) (hn : s.xref.get n = some e) (hn' : s.xref.get n' = some e')
+    (hs : e.inStream = 0) (hs' : e'.inStream = 0) (hp : 0 ≤ e.pos) (heq : e.pos = e'.pos) : n = n' :=
+  offsets_distinct_inv (C02fiob.run_inv ops (C02fiob.init_inv o s0 h0) hr) n n' e e' hn hn' hs hs' hp heq
+
 end PdfVerif.C03fiob
